@@ -81,9 +81,233 @@ def pytypes_of(v):
         return {"Expr"}
     if isinstance(v, AType):
         return {"Type"}
+    if isinstance(v, NPVal):
+        return {"numpy.complexfloating", "numpy.number"} if v.dtype.kind == "complex" else {"numpy.floating", "numpy.number"}
     if v is None:
         return {"NoneType"}
     return {type(v).__name__}
+
+
+def rnd(v, bits):
+    """Round a Python float/complex to the IEEE format with the given width (None/64: unchanged)."""
+    import struct
+
+    if isinstance(v, complex):
+        return complex(rnd(v.real, bits and bits // 2), rnd(v.imag, bits and bits // 2))
+    if isinstance(v, bool) or bits in (None, 64, 128) or not isinstance(v, float):
+        return v
+    if v != v or v in (math.inf, -math.inf):
+        return v
+    fmt = {32: "f", 16: "e"}.get(bits)
+    if fmt is None:
+        raise Unsupported(f"float{bits}")
+    try:
+        return struct.unpack(fmt, struct.pack(fmt, v))[0]
+    except OverflowError:
+        return math.copysign(math.inf, v)
+
+
+class NPDtype:
+    """Stand-in for a numpy scalar type (numpy.float32, numpy.complex128, ...)."""
+
+    __absint_host__ = True
+
+    def __init__(self, kind, bits):
+        self.kind, self.bits = kind, bits
+        self.__name__ = f"{kind}{bits}"
+
+    def __call__(self, v=0.0):
+        if isinstance(v, NPVal):
+            v = v.value
+        if isinstance(v, str):
+            raise PyRaise("ValueError could not convert string to float")
+        if self.kind == "complex":
+            return NPVal(self, rnd(complex(v), self.bits))
+        if isinstance(v, complex):
+            raise PyRaise("TypeError float() argument must be a string or a real number, not 'complex'")
+        return NPVal(self, rnd(float(v), self.bits))
+
+    def __eq__(self, o):
+        return isinstance(o, NPDtype) and (self.kind, self.bits) == (o.kind, o.bits)
+
+    def __hash__(self):
+        return hash((self.kind, self.bits))
+
+    def __repr__(self):
+        return f"numpy.{self.kind}{self.bits}"
+
+
+def _np_result(a, b):
+    da = a.dtype if isinstance(a, NPVal) else None
+    db = b.dtype if isinstance(b, NPVal) else None
+    if da is None:
+        return db
+    if db is None:
+        return da
+    if da.kind == db.kind:
+        return da if da.bits >= db.bits else db
+    c, f = (da, db) if da.kind == "complex" else (db, da)
+    return NPDtype("complex", max(c.bits, 2 * f.bits))
+
+
+class NPVal:
+    """Stand-in for a numpy scalar: value rounded to its dtype after every operation."""
+
+    __absint_host__ = True
+
+    def __init__(self, dtype, value):
+        self.dtype, self.value = dtype, value
+
+    def _bin(self, o, f):
+        ov = o.value if isinstance(o, NPVal) else o
+        if isinstance(ov, (AExpr,)):
+            return NotImplemented
+        dt = _np_result(self, o)
+        try:
+            v = f(self.value, ov)
+        except ZeroDivisionError:
+            a, b = self.value, ov
+            v = math.nan if a == 0 or a != a else math.copysign(math.inf, a) * (1 if str(b)[0] != "-" else -1)
+        except OverflowError:
+            v = math.inf
+        return NPVal(dt, rnd(v, dt.bits) if not isinstance(v, bool) else v)
+
+    def __add__(self, o):
+        return self._bin(o, lambda a, b: a + b)
+
+    __radd__ = __add__
+
+    def __sub__(self, o):
+        return self._bin(o, lambda a, b: a - b)
+
+    def __rsub__(self, o):
+        return self._bin(o, lambda a, b: b - a)
+
+    def __mul__(self, o):
+        return self._bin(o, lambda a, b: a * b)
+
+    __rmul__ = __mul__
+
+    def __truediv__(self, o):
+        return self._bin(o, lambda a, b: a / b)
+
+    def __rtruediv__(self, o):
+        return self._bin(o, lambda a, b: b / a)
+
+    def __neg__(self):
+        return NPVal(self.dtype, -self.value)
+
+    def __pos__(self):
+        return self
+
+    def __abs__(self):
+        if self.dtype.kind == "complex":
+            return NPVal(NPDtype("float", self.dtype.bits // 2), rnd(abs(self.value), self.dtype.bits // 2))
+        return NPVal(self.dtype, abs(self.value))
+
+    def _cmp(self, o, f):
+        ov = o.value if isinstance(o, NPVal) else o
+        if isinstance(ov, AExpr):
+            return NotImplemented
+        return f(self.value, ov)
+
+    def __lt__(self, o):
+        return self._cmp(o, lambda a, b: a < b)
+
+    def __le__(self, o):
+        return self._cmp(o, lambda a, b: a <= b)
+
+    def __gt__(self, o):
+        return self._cmp(o, lambda a, b: a > b)
+
+    def __ge__(self, o):
+        return self._cmp(o, lambda a, b: a >= b)
+
+    def __eq__(self, o):
+        return self._cmp(o, lambda a, b: a == b)
+
+    def __ne__(self, o):
+        return self._cmp(o, lambda a, b: a != b)
+
+    def __hash__(self):
+        return hash((self.dtype, self.value))
+
+    def __float__(self):
+        return float(self.value)
+
+    def __complex__(self):
+        return complex(self.value)
+
+    def __bool__(self):
+        return bool(self.value)
+
+    def conjugate(self):
+        return NPVal(self.dtype, self.value.conjugate() if isinstance(self.value, complex) else self.value)
+
+    @property
+    def real(self):
+        return NPVal(NPDtype("float", self.dtype.bits // 2), self.value.real) if self.dtype.kind == "complex" else self
+
+    @property
+    def imag(self):
+        return NPVal(NPDtype("float", self.dtype.bits // 2), self.value.imag) if self.dtype.kind == "complex" else NPVal(self.dtype, 0.0)
+
+    def __repr__(self):
+        return f"{self.dtype!r}({self.value!r})"
+
+    __str__ = lambda self: repr(self.value)  # noqa
+
+
+class NPFinfo:
+    __absint_host__ = True
+
+    def __init__(self, dtype):
+        import sys
+
+        if isinstance(dtype, NPVal):
+            dtype = dtype.dtype
+        b = dtype.bits // 2 if dtype.kind == "complex" else dtype.bits
+        ft = NPDtype("float", b)
+        p = {16: 11, 32: 24, 64: 53}[b]
+        emax = {16: 15, 32: 127, 64: 1023}[b]
+        emin = 1 - emax
+        self.eps = NPVal(ft, 2.0 ** (1 - p))
+        self.max = NPVal(ft, (2.0 - 2.0 ** (1 - p)) * 2.0 ** emax)
+        self.smallest_normal = NPVal(ft, 2.0 ** emin)
+        self.tiny = self.smallest_normal
+        self.smallest_subnormal = NPVal(ft, 2.0 ** (emin - p + 1))
+        self.negep, self.machep, self.maxexp, self.minexp = -p, 1 - p, emax + 1, emin
+
+
+def _np_unary(f):
+    def g(v):
+        if isinstance(v, NPVal):
+            x = v.value
+            try:
+                y = f(x)
+            except (ValueError, ZeroDivisionError):
+                y = math.nan
+            except OverflowError:
+                y = math.inf
+            return NPVal(v.dtype, rnd(y, v.dtype.bits))
+        return f(v)
+    return g
+
+
+DEFAULT_EXT_CALLS = {
+    "numpy.finfo": NPFinfo,
+    "numpy.sqrt": _np_unary(lambda x: math.sqrt(x) if not isinstance(x, complex) else _unsup("complex sqrt")),
+    "numpy.square": _np_unary(lambda x: x * x),
+    "numpy.isfinite": lambda v: math.isfinite(v.value if isinstance(v, NPVal) else v),
+    "numpy.isnan": lambda v: (v.value if isinstance(v, NPVal) else v) != (v.value if isinstance(v, NPVal) else v),
+    "numpy.isposinf": lambda v: (v.value if isinstance(v, NPVal) else v) == math.inf,
+    "numpy.isneginf": lambda v: (v.value if isinstance(v, NPVal) else v) == -math.inf,
+    "numpy.signbit": lambda v: math.copysign(1.0, float(v.value if isinstance(v, NPVal) else v)) < 0,
+}
+
+
+def _unsup(what):
+    raise Unsupported(what)
 
 
 class AType:
@@ -750,7 +974,7 @@ class Interp:
             if name.startswith("is_"):
                 return obj.kind == {"is_float": "float", "is_complex": "complex", "is_integer": "integer", "is_boolean": "boolean"}.get(name, "?")
             if name == "asdtype":
-                return lambda: (None if obj.bits is None else _unsupported("numpy dtype"))
+                return lambda: (None if obj.bits is None or obj.kind not in ("float", "complex") else NPDtype(obj.kind, obj.bits))
             raise Unsupported(f"Type.{name}")
         if isinstance(obj, ClassRef):
             return self.class_attr(obj.rel, obj.node.name, name, obj, has_default, default)
@@ -762,6 +986,8 @@ class Interp:
                 return TypeSet({full})
             if obj.name == "math" and hasattr(math, name):
                 return getattr(math, name)
+            if obj.name == "numpy" and name in ("inf", "pi", "nan", "e"):
+                return {"inf": math.inf, "pi": math.pi, "nan": math.nan, "e": math.e}[name]
             if obj.name == "string":
                 import string as _string
                 if hasattr(_string, name):
@@ -843,11 +1069,13 @@ class Interp:
             if init is not None:
                 self.call(Closure(init, {}, self, crel, bound_self=obj, cls=cnode), args, kwargs)
             return obj
+        if isinstance(fn, NPDtype):
+            return fn(*args)
         if isinstance(fn, AObj):
             callm = self.class_attr(fn.rel, fn.cls.name, "__call__", fn)
             return self.call(callm, args, kwargs)
         if isinstance(fn, ModRef):
-            hook = getattr(self, "ext_calls", {}).get(fn.name)
+            hook = getattr(self, "ext_calls", {}).get(fn.name) or DEFAULT_EXT_CALLS.get(fn.name)
             if hook is not None:
                 return hook(*args, **kwargs)
             raise Unsupported(f"call of external {fn.name}")
@@ -881,6 +1109,8 @@ class Interp:
         return TypeSet(pytypes_of(v) - ({"int"} if isinstance(v, bool) else set()))
 
     def b_isinstance(self, v, t):
+        if isinstance(t, NPDtype):
+            return isinstance(v, NPVal) and v.dtype == t
         if isinstance(t, tuple):
             names = set()
             for x in t:
